@@ -5162,6 +5162,7 @@ void UniCompiler::emit_vm(UniOpVM op, const Vec& dst_, const Mem& src_, Alignmen
           src.set_size(2);
           avx_zero(*this, dst);
           cc->vpinsrw(dst, dst, src, 0);
+          return;
         }
         [[fallthrough]];
 
